@@ -221,6 +221,7 @@ var customFormatters = map[string]struct{}{
 	"strfmt.UUID3":      {},
 	"strfmt.UUID4":      {},
 	"strfmt.UUID5":      {},
+	"strfmt.ULID":       {},
 	// the following interfaces do not generate validations
 	"io.ReadCloser": {}, // for "format": "binary" (server side)
 	"io.Writer":     {}, // for "format": "binary" (client side)
